@@ -152,6 +152,10 @@ def rp66_source(variant):
     t1 = [c04.ch('TIME', 17, [1]), c04.ch('DEPT', 2, [1], copy=1), c04.ch('IMG', 6, [2, 2])]
     if variant.get('perm'):
         t0 = [t0[0], t0[2], t0[1]]
+    if variant.get('img'):
+        # channels of two dimensions in front of (and between) the others: skipping one that was not asked for has to
+        # step over all of its elements
+        t0 = [t0[0], c04.ch('IMG', 2, [2, 3]), t0[1], c04.ch('MAT', 13, [3, 2]), t0[2]]
     n0 = variant.get('n', N)
     types = [{'name': 'FT0', 'channels': t0, 'n': n0}]
     if variant.get('two'):
@@ -574,6 +578,10 @@ def gen_cases(tier, fmt):
                                'opts': {'sel': sel, 'channels': chs, 'reduction': red, 'width': width, 'fmt': ff}}
     if fmt == 'rp66':
         yield {'variant': {'origin': 'minimal'}, 'opts': dict(DEFAULT)}
+        for chs in CHANNEL_SETS[fmt] + [['IMG'], ['MAT', 'GR'], ['IMG', 'WAVE']]:
+            for sel in (None, ['slice', 1, None, 2], ['sample', 3]):
+                for red in ('first', 'max'):
+                    yield {'variant': {'img': True}, 'opts': dict(DEFAULT, sel=sel, channels=chs, reduction=red)}
     if fmt == 'rp66':
         # storage unit labels whose numbers contain zero digits / other spellings: the converter must not ignore the file
         for sul in ({'maxlen': 4096}, {'maxlen': 10240}, {'seq': 10}, {'seq_text': '0001', 'maxlen': 2048}, {'maxlen': 16384}):
